@@ -700,6 +700,9 @@ func (r *gfRand) index(bits int, signed bool) uint64 {
 }
 
 func (r *gfRand) smallInt(signed bool) uint64 {
+	if r.next()%10 < 6 {
+		return r.next() % 8
+	}
 	v := r.next() % 300
 	if signed && r.next()%8 == 0 {
 		v = -(r.next() % 4)
